@@ -376,7 +376,9 @@ impl VariablesState {
                             let mut a = val.get_origin_names();
                             let mut b = default_val.get_origin_names();
                             a.sort();
+                            a.dedup();
                             b.sort();
+                            b.dedup();
                             a == b
                         })
                 }
